@@ -70,10 +70,51 @@ let parse_call (s : string) : call =
 
 let show_list l = String.concat " " (List.map string_of_z l)
 
+(* MPLEX layer: "M <cval> <CH> | in values | count values | events"
+   events: g,<rt>,<first>,<n>  |  p,<0 = input, 1 = count>,<at>,<v1:v2:..>   (lists index absolute samples)
+   rt >= 100 marks a floating point return type: its padding is the tag 999999999 (NaN) *)
+let nan_tag = z_of_int 999999999
+let mplex_line (hd : string) (ins : string) (cnts : string) (evs : string) : string =
+  match split ' ' hd with
+  | [_; cv; ch] ->
+      let cval = z_of_string cv and chz = z_of_string ch in
+      let pad rt = if int_of_z rt >= 100 then nan_tag else Z0 in
+      let lst s = List.map z_of_string (split ',' (String.trim s)) in
+      let vin = ref (lst ins) and vcnt = ref (lst cnts) in
+      let ca = ref None in
+      let splice l at vals =
+        let a = Array.of_list l in
+        let n = max (Array.length a) (at + List.length vals) in
+        let b = Array.make n Z0 in
+        Array.blit a 0 b 0 (Array.length a);
+        List.iteri (fun i v -> b.(at + i) <- v) vals;
+        Array.to_list b in
+      let outs = List.map (fun e ->
+        match String.split_on_char ',' e with
+        | ["g"; rt; first; n] ->
+            let (ca', l) = mplex_read cval chz pad (Zneg XH) (z_of_int 10) !ca (of_list !vin) (of_list !vcnt)
+                             (z_of_string rt) (z_of_string first) (z_of_string n) in
+            ca := ca';
+            "D " ^ String.concat " " (List.map (fun v -> if v = nan_tag then "nan" else string_of_z v) l)
+        | ["p"; which; at; vals] ->
+            let vs = List.map z_of_string (split ':' vals) in
+            if which = "0" then vin := splice !vin (int_of_string at) vs
+            else vcnt := splice !vcnt (int_of_string at) vs;
+            ca := None;     (* dc2eda2 *)
+            "K"
+        | _ -> "BAD") (split ';' (String.trim evs)) in
+      String.concat ";" outs
+  | _ -> "BADHEAD"
+
 let () =
   try
     while true do
       let line = input_line stdin in
+      if String.length line > 0 && line.[0] = 'M' then
+        (match String.split_on_char '|' line with
+         | [hd; a; b; e] -> print_endline (mplex_line hd a b e)
+         | _ -> print_endline "BADLINE")
+      else
       match String.split_on_char '|' line with
       | [hd; raws; fields; calls] ->
           (match split ' ' hd with
